@@ -102,6 +102,8 @@ const POOL: &[char] = &[
     'a', 'b', 'Z', 'Q', 'k', 'K', '0', '0', '1', '7', '9', '.', '-', '_', ' ', '/', '+', '!', '@', '#', '~',
     '\t', '\n', '\0', 'é', 'ü', 'ß', 'Ω', 'ж', '中', '日', '٢', '۵', '९', '\u{212A}', '\u{0130}',
     '\u{017F}', '\u{0301}', '\u{200B}', '😀', '𝟘', 'Ⅷ', '²', '½',
+    // code points whose LOW BYTE is an ASCII letter or digit (U+0141 -> 'A', U+0159 -> 'Y', U+6D4B -> 'K', U+0130 -> '0')
+    'Ł', 'ř', '测',
 ];
 
 /// a long digit run (around and beyond the u32 / u64 / u128 boundaries), often with leading zeros
